@@ -10,11 +10,21 @@ import (
 )
 
 func vArg(k string) []byte {
-	switch vrt.Choose(k+".kind", 3) {
+	switch vrt.Choose(k+".kind", 4) {
 	case 0:
 		return nil
 	case 1:
 		return []byte{}
+	case 3:
+		// a long argument (longer than any fixed-size scratch buffer one might put on the call path): 1100 bytes,
+		// of which the first 1099 are shared by all long arguments
+		b := make([]byte, 1100)
+		for i := range b {
+			b[i] = 'k'
+		}
+		b[len(b)-1] = byte('0' + len(k)%10)
+		vrt.Tag("long-argument")
+		return b
 	}
 	return []byte{vrt.Byte(k)} // any byte, including bytes that are not valid UTF-8 on their own
 }
